@@ -24,7 +24,7 @@ def never_early_table(ctx, r1):
     f = prog.fn(FD + "::should_transfer_now")
     ctx.analysed(f.path)
     t = polarity.Table(f,
-                       name_sign={"now_start": r"^now -start_time$|^-now \+?start_time$|now.*start_time", "elapsed": r"interval",
+                       name_sign={"now_start": r"^now -start_time$|^-now \+?start_time$|now.*start_time", "elapsed": r"interval|duration_since\(&now",
                                   "cnt": r"max_transfer_count"},
                        name_bool={"start_some": r"(?<!last_)transfer_start_time is Some", "carousel": r"carousel_mode is Some",
                                   "last_end": r"last_transfer_end_time is Some", "last_start": r"last_transfer_start_time is Some"})
@@ -34,7 +34,7 @@ def never_early_table(ctx, r1):
         raise model.AnchorMissing("should_transfer_now: comparisons %s not recognised (seen: %s ; %s)" % (
             missing, [polarity.show_key(k) for k in t.seen_sign], list(t.seen_bool)))
     o_now = _orient(t, "now_start", r"^now$")          # +1 if key == now - start_time
-    o_el = _orient(t, "elapsed", r"last_transfer_interval")  # +1 if key == elapsed - interval
+    o_el = _orient(t, "elapsed", r"last_transfer_interval|duration_since\(&now")  # +1 if key == elapsed - interval
     o_cnt = _orient(t, "cnt", r"max_transfer_count")
 
     def exp(sc):
